@@ -918,6 +918,20 @@ class ExprMixin:
 
         def f(s, itv):
             items = self.concrete_items(s, itv)
+            if items is None and isinstance(itv, VRange):
+                # a range of symbolic but small length (e.g. range(matches.count(True))): one case
+                # per feasible length 0..4; a longer range is outside the executor's reach
+                ln = z3.simplify(itv.stop - itv.start)
+                outs = []
+                rest = s
+                for n_ in range(0, 5):
+                    sn = rest.fork().assume(ln == n_) if n_ else rest.fork().assume(ln <= 0)
+                    if feasible(sn.pc):
+                        outs.extend(f(sn, VTuple(tuple(VInt(z3.simplify(itv.start + j)) for j in range(n_)))))
+                    rest = rest.assume(ln != n_) if n_ else rest.assume(ln > 0)
+                if feasible(rest.pc):
+                    raise Unsupported(f"comprehension over a symbolic range that may be longer than 4 at line {node.lineno}")
+                return outs
             if items is None:
                 return self.abstract_comprehension(s, node, gen, itv, kind)
             saved = {}
